@@ -5,8 +5,8 @@
 -/
 import Rtp.Go.Bits
 import Rtp.Model.AV1Obs
-namespace Rtp.Model
-open Rtp Rtp.Bits Rtp.Spec.Av1Rtp
+namespace Rtp.Model.ObuLemmas
+open Rtp Rtp.Model Rtp.Bits Rtp.Spec.Av1Rtp
 
 /-! ### single bytes -/
 
@@ -214,4 +214,4 @@ theorem parse_ne_panic (bs : Bytes) : parseObuHeader bs ≠ .panic := by
       · cases rest <;> simp
       · simp
 
-end Rtp.Model
+end Rtp.Model.ObuLemmas
